@@ -28,8 +28,15 @@ package helpers
 
 //@ func HasAttr(n, key) (r)
 //@   pure
+//@   ensures C03+C14.hasattr: r == hasAttrUpTo(n.Attr, key, len(n.Attr))
+//@   loop 0 invariant bounds: 0 <= $i && $i <= len(n.Attr)
+//@   loop 0 invariant scan: !hasAttrUpTo(n.Attr, key, $i)
+//@   loop 0 use hasAttrMono(n.Attr, key, $i + 1, len(n.Attr))
 //@ func GetAttr(n, key) (r)
 //@   pure
+//@   ensures C03+C14.getattr: r == getAttrFrom(n.Attr, key, 0)
+//@   loop 0 invariant bounds: 0 <= $i && $i <= len(n.Attr)
+//@   loop 0 invariant scan: getAttrFrom(n.Attr, key, 0) == getAttrFrom(n.Attr, key, $i)
 //@ func FilterAttrs(attrs, key) (r)
 //@   pure
 
@@ -37,3 +44,14 @@ package helpers
 //@   modifies nothing
 //@   trusted
 //@   ensures r != nil
+
+//@ spec func hasAttrUpTo(as []html.Attribute, key string, k int) bool decreases k {
+//@   k <= 0 ? false : (as[k-1].Key == key || hasAttrUpTo(as, key, k-1)) }
+//@ spec func getAttrFrom(as []html.Attribute, key string, k int) string decreases len(as) - k {
+//@   (k < 0 || k >= len(as)) ? "" : (as[k].Key == key ? as[k].Val : getAttrFrom(as, key, k+1)) }
+
+//@ lemma hasAttrMono(as []html.Attribute, key string, k int, n int)
+//@   requires 0 <= k && k <= n && hasAttrUpTo(as, key, k)
+//@   decreases n - k
+//@   induct hasAttrMono(as, key, k, n - 1)
+//@   ensures C03+C14.hasattr.mono: hasAttrUpTo(as, key, n)
